@@ -750,7 +750,9 @@ func genCtrl(thorough bool) Gen {
 					}},
 					stmtGen{"repeat{" + b.name + "}", func() []Stat {
 						// the until condition sees the body local rr
-						body := append([]Stat{Assign1(Name("w2"), Bin("+", Name("w2"), Num(1))), Local1("rr", Bin(">=", Name("w2"), Num(3)))}, b.mk()...)
+						// the generated statements go into a do-block: a `goto cont` may not jump over a local
+						// declaration into a label that the until-expression's scope still covers
+						body := []Stat{Assign1(Name("w2"), Bin("+", Name("w2"), Num(1))), Local1("rr", Bin(">=", Name("w2"), Num(3))), Do(b.mk()...)}
 						return []Stat{Local1("w2", Num(0)), Repeat(Bin("or", Name("rr"), Bin(">=", Name("w2"), Num(3))), loopBody(body)...)}
 					}},
 					stmtGen{"for{" + b.name + "}", func() []Stat { return []Stat{NumFor("i", Num(1), Num(3), nil, loopBody(b.mk())...)} }},
